@@ -110,14 +110,35 @@ static void *vf_split_alloc(void *old, size_t n)
     VF_NONNULL(q);
     return q;
 #else
-    void *p = 0; size_t k; int done = 0;
+    void *p = 0; int done = 0;
     if (n == sizeof(cJSON)) { p = old ? realloc(old, sizeof(cJSON)) : malloc(sizeof(cJSON)); done = 1; }
 #ifdef VF_EXTRASZ
     else if (n == (VF_EXTRASZ)) { p = old ? realloc(old, (VF_EXTRASZ)) : malloc((VF_EXTRASZ)); done = 1; }
 #endif
-    else {
-        for (k = 0; k <= VF_MAXSZ; k++) { if (n == k) { p = old ? realloc(old, k) : malloc(k); done = 1; break; } }
-    }
+#define VF_SZ(k) else if (n == (k)) { p = old ? realloc(old, (k)) : malloc(k); done = 1; }
+#define VF_SZ8(b) VF_SZ((b)) VF_SZ((b) + 1) VF_SZ((b) + 2) VF_SZ((b) + 3) VF_SZ((b) + 4) VF_SZ((b) + 5) VF_SZ((b) + 6) VF_SZ((b) + 7)
+    VF_SZ8(0)
+#if VF_MAXSZ >= 8
+    VF_SZ8(8)
+#endif
+#if VF_MAXSZ >= 16
+    VF_SZ8(16)
+#endif
+#if VF_MAXSZ >= 24
+    VF_SZ8(24)
+#endif
+#if VF_MAXSZ >= 32
+    VF_SZ8(32) VF_SZ8(40)
+#endif
+#if VF_MAXSZ >= 48
+    VF_SZ8(48) VF_SZ8(56)
+#endif
+#if VF_MAXSZ >= 64
+    VF_SZ8(64) VF_SZ8(72) VF_SZ8(80) VF_SZ8(88)
+#endif
+#if VF_MAXSZ >= 96
+    VF_SZ8(96) VF_SZ8(104) VF_SZ8(112) VF_SZ8(120)
+#endif
     VF_BOUND(done, "allocation size outside the size-split range");
     __CPROVER_assume(done);
     __CPROVER_assume(p != 0);
